@@ -229,6 +229,15 @@ def run(chk):
     for hdr_ in ('#:ports 0\n#:frequencies 0\n#:parameters zinri\n#:z0\n', '#:ports 0\n#:frequencies 1\n#:parameters zinri\n#:z0 PER-FREQUENCY\n1e9\n',
                  '#:ports 0\n#:frequencies 1\n#:parameters Sri\n#:z0\n1e9\n', '#:z0 50 0j\n#:ports 0\n#:frequencies 0\n#:parameters zinri\n'):
         inputs.append(('vd', 'x.npd', hdr_.encode()))
+    # NPD headers that give the reference impedances both ways (a fixed `#:z0` vector and `#:z0 PER-FREQUENCY`), in either order, with
+    # good and bad data lines after them
+    for ports_ in (1, 2, 4):
+        fixed = '#:z0 ' + ' '.join('%d %dj' % (50 + 5 * q, q) for q in range(ports_))
+        perf = '#:z0 PER-FREQUENCY'
+        row = lambda f: '%g ' % f + ' '.join('%d 0' % (60 + q) for q in range(ports_)) + ' ' + ' '.join('.%d .%d' % (1 + k % 8, 2 + k % 7) for k in range(ports_ * ports_))
+        for first, second in ((fixed, perf), (perf, fixed), (fixed, fixed), (perf, perf)):
+            for body in (row(1e9) + '\n' + row(2e9) + '\n', row(1e9) + '\n' + row(2e9)[:-4] + 'x\n', row(1e9) + '\n'):
+                inputs.append(('vd', 'x.npd', ('#NPD\n#:version 1.0\n#:ports %d\n#:frequencies 2\n#:parameters Sri\n%s\n%s\n%s' % (ports_, first, second, body)).encode()))
     # a .vnacal whose properties contain an alias to an enclosing node
     for name, data in cal_seeds[:2]:
         if b'properties:' in data:
